@@ -2,6 +2,7 @@ package core
 
 import (
 	stdErrors "errors"
+	"fmt"
 
 	schema "github.com/jsightapi/jsight-schema-core"
 	"github.com/jsightapi/jsight-schema-core/notations/jschema"
@@ -13,8 +14,32 @@ import (
 )
 
 func (core *JApiCore) collectUserTypes() *jerr.JApiError {
+	if je := core.checkUserTypeNamesAreUnique(); je != nil {
+		return je
+	}
 	core.collectRawUserTypes()
 	return core.compileUserTypes()
+}
+
+// checkUserTypeNamesAreUnique reports the second TYPE directive with the same name. Without it the later
+// declaration silently replaces the earlier one in rawUserTypes, and the earlier directive is then processed
+// with the schema (or the absence of a schema) of the later one.
+func (core *JApiCore) checkUserTypeNamesAreUnique() *jerr.JApiError {
+	names := make(map[string]struct{}, len(core.directivesWithPastes))
+	for _, d := range core.directivesWithPastes {
+		if d.Type() != directive.Type {
+			continue
+		}
+		name := d.NamedParameter("Name")
+		if name == "" {
+			continue
+		}
+		if _, ok := names[name]; ok {
+			return d.KeywordError(fmt.Sprintf(jerr.DuplicateNames, name))
+		}
+		names[name] = struct{}{}
+	}
+	return nil
 }
 
 func (core *JApiCore) collectRawUserTypes() {
